@@ -25,6 +25,11 @@ def run(ctx):
             n = len(e.get("stops", [])) if isinstance(e.get("stops"), list) else -1
             ctx.violation("gen:%s:%s:%s:n=%d" % (d.get("what"), d.get("id"), e.get("name"), n),
                           "gradient helper: %s" % d.get("what"), gencheck.short(d))
+        elif d.get("diag") in ("raster", "vm") and d.get("ev", {}).get("call", {}).get("op") == "ClosePathEndPath":
+            # "when rendered": the path painted with the written gradient is drawn once over the target rectangle with the
+            # gradient image aligned to the rectangle's corner, and with the paint the registers prescribe
+            ctx.violation("rendered:%s:%s" % (d.get("what"), d.get("id")),
+                          "rendering the written gradient: %s" % d.get("what"), gencheck.short(d))
     mc = ctx.mc[-1]
     st = r["summary"]["stats"]
     cov = dict(states=mc["distinct"], transitions=max(1, mc["generated"]),
